@@ -393,16 +393,16 @@ func parseRefPicListsModification(r *bits.EBSPReader, sliceType SliceType,
 		RefPicListModificationFlagL0: r.ReadFlag(),
 	}
 	if rplm.RefPicListModificationFlagL0 {
-		rplm.ListEntryL0 = make([]uint8, refIdxL0Minus1+1)
-		for i := uint8(0); i <= refIdxL0Minus1; i++ {
+		rplm.ListEntryL0 = make([]uint8, int(refIdxL0Minus1)+1)
+		for i := 0; i <= int(refIdxL0Minus1); i++ {
 			rplm.ListEntryL0[i] = uint8(r.Read(bits.CeilLog2(uint(numPicTotalCurr))))
 		}
 	}
 	if sliceType == SLICE_B {
 		rplm.RefPicListModificationFlagL1 = r.ReadFlag()
 		if rplm.RefPicListModificationFlagL1 {
-			rplm.ListEntryL1 = make([]uint8, refIdxL1Minus1+1)
-			for i := uint8(0); i <= refIdxL1Minus1; i++ {
+			rplm.ListEntryL1 = make([]uint8, int(refIdxL1Minus1)+1)
+			for i := 0; i <= int(refIdxL1Minus1); i++ {
 				rplm.ListEntryL1[i] = uint8(r.Read(bits.CeilLog2(uint(numPicTotalCurr))))
 			}
 		}
@@ -427,22 +427,22 @@ func parsePredWeightTable(r *bits.EBSPReader, sliceType SliceType,
 		pwt.DeltaChromaLog2WeightDenom = int8(r.ReadSignedGolomb())
 	}
 
-	pwt.WeightsL0 = make([]WeightingFactors, refIdxL0Minus1+1)
-	for i := uint8(0); i <= refIdxL0Minus1; i++ {
+	pwt.WeightsL0 = make([]WeightingFactors, int(refIdxL0Minus1)+1)
+	for i := 0; i <= int(refIdxL0Minus1); i++ {
 		// Not implemented
 		// if( ( pic_layer_id( RefPicList0[ i ] ) != nuh_layer_id ) | |
 		//( PicOrderCnt( RefPicList0[ i ] ) != PicOrderCnt( CurrPic ) ) )
 		pwt.WeightsL0[i].LumaWeightFlag = r.ReadFlag()
 	}
 	if chromaArrayType != 0 {
-		for i := uint8(0); i <= refIdxL0Minus1; i++ {
+		for i := 0; i <= int(refIdxL0Minus1); i++ {
 			// Not implemented
 			// if( ( pic_layer_id( RefPicList0[ i ] ) != nuh_layer_id ) | |
 			//( PicOrderCnt( RefPicList0[ i ] ) != PicOrderCnt( CurrPic ) ) )
 			pwt.WeightsL0[i].ChromaWeightFlag = r.ReadFlag()
 		}
 	}
-	for i := uint8(0); i <= refIdxL0Minus1; i++ {
+	for i := 0; i <= int(refIdxL0Minus1); i++ {
 		if pwt.WeightsL0[i].LumaWeightFlag {
 			// value shall be in the range of −128 to 127, inclusive
 			pwt.WeightsL0[i].DeltaLumaWeight = int8(r.ReadSignedGolomb())
@@ -457,22 +457,22 @@ func parsePredWeightTable(r *bits.EBSPReader, sliceType SliceType,
 		}
 	}
 	if sliceType == SLICE_B {
-		pwt.WeightsL1 = make([]WeightingFactors, refIdxL1Minus1+1)
-		for i := uint8(0); i <= refIdxL1Minus1; i++ {
+		pwt.WeightsL1 = make([]WeightingFactors, int(refIdxL1Minus1)+1)
+		for i := 0; i <= int(refIdxL1Minus1); i++ {
 			// Not implemented
 			// if( ( pic_layer_id( RefPicList0[ i ] ) != nuh_layer_id ) | |
 			//( PicOrderCnt( RefPicList1[ i ] ) != PicOrderCnt( CurrPic ) ) )
 			pwt.WeightsL1[i].LumaWeightFlag = r.ReadFlag()
 		}
 		if chromaArrayType != 0 {
-			for i := uint8(0); i <= refIdxL1Minus1; i++ {
+			for i := 0; i <= int(refIdxL1Minus1); i++ {
 				// Not implemented
 				// if( ( pic_layer_id( RefPicList0[ i ] ) != nuh_layer_id ) | |
 				//( PicOrderCnt( RefPicList1[ i ] ) != PicOrderCnt( CurrPic ) ) )
 				pwt.WeightsL1[i].ChromaWeightFlag = r.ReadFlag()
 			}
 		}
-		for i := uint8(0); i <= refIdxL1Minus1; i++ {
+		for i := 0; i <= int(refIdxL1Minus1); i++ {
 			if pwt.WeightsL1[i].LumaWeightFlag {
 				// value shall be in the range of −128 to 127, inclusive
 				pwt.WeightsL1[i].DeltaLumaWeight = int8(r.ReadSignedGolomb())
